@@ -44,5 +44,6 @@ Normalise(b) ==
     [] b.kind = "bool" -> [t |-> "b", v |-> b.raw]
     [] b.kind = "string" -> [t |-> "s", v |-> b.raw]
     [] b.kind = "duration_ms" -> [t |-> "i", v |-> TruncDivR(b.raw, 1000)]  \* Duration / time.Second
+    [] b.kind = "duration_sn" -> [t |-> "i", v |-> b.raw[1]]                \* <<seconds, nanoseconds of the same sign>>
     [] b.kind = "unix" -> [t |-> "i", v |-> b.raw]                         \* time.Time -> Unix seconds
 =============================================================================
